@@ -112,6 +112,12 @@ def run_impl(case):
         return {"init": type(e).__name__}
 
     def observe():
+        if case.get("quiet"):
+            # observation that cannot touch the number cache: iteration over the members only, no look-up
+            # (a look-up after every step repairs a stale cache entry before the next operation can meet it:
+            # seeded change C16a)
+            objs = list(coll)
+            return {"keys": [o.number for o in objs], "members": [idx(o) for o in objs], "gets": []}
         return {
             "keys": list(coll.keys()),
             "members": [idx(o) for o in coll.values()],
@@ -213,6 +219,10 @@ def judge(case, res):
         if sig is None and out == {"t": "err", "v": "NumberConflictError"}:
             if prev["members"] != members or prev["keys"] != keys or prev["gets"] != obs["gets"]:
                 sig = dict(base, **{"class": "conflict-not-noop", "op": op[0]})
+        if sig is None and op[0] == "contains" and out["t"] == "bool":
+            # members of the state BEFORE the step (contains changes nothing)
+            if out["v"] != (op[1] in prev["members"]) and not case.get("content"):
+                sig = dict(base, **{"class": "stale-lookup", "op": "contains"})
         if sig is None and op[0] == "get" and out["t"] == "obj":
             want = members[keys.index(op[1])] if op[1] in keys else None
             if out["v"] != want:
@@ -310,6 +320,11 @@ def gen_random_case(rng, i):
             a = rng.randint(-1, 5)
             ops.append(["slice", a, a + rng.randint(-1, 6)])
     case = {"kind": kind, "owned": owned, "pool": pool, "init": init, "probes": PROBES, "ops": ops}
+    if i % 3 == 1:
+        # no look-ups between the steps: what an operation leaves in the cache is met by the next operation
+        case["quiet"] = True
+        case["probes"] = []
+        case["ops"] = [op if rng.random() < 0.7 else ["contains", rng.randrange(nobj)] for op in ops] + [["contains", o] for o in range(nobj)]
     if content != list(range(nobj)):
         case["content"] = content
         # a free-standing collection cannot start with two == members of one number: keep init consistent
@@ -338,6 +353,11 @@ def gen_exhaustive(depth, kinds):
 
 
 CORPUS = [
+    # seeded C16a: membership answered from a number cache that a renumbering left stale (no look-up in between)
+    {"kind": "surface", "owned": True, "pool": [1, 2], "init": [], "probes": [], "quiet": True,
+     "ops": [["append", 0], ["append", 1], ["contains", 0], ["contains", 1], ["setnum", 0, 7], ["setnum", 1, 1], ["contains", 1], ["contains", 0]]},
+    {"kind": "cell", "owned": True, "pool": [1, 2, 3], "init": [], "probes": [], "quiet": True,
+     "ops": [["extend", [0, 1, 2]], ["contains", 2], ["setnum", 0, 9], ["setnum", 2, 1], ["contains", 2], ["remove", 2], ["contains", 2]]},
     # minimised histories of the defects repaired by the fix: commits (see known_findings.json "fixed")
     {"kind": "cell", "owned": True, "pool": [1, 1], "init": [], "probes": PROBES, "ops": [["extend", [0, 1]]]},
     {"kind": "cell", "owned": True, "pool": [2, 5, 2], "init": [], "probes": PROBES, "ops": [["append", 0], ["iadd", [1, 2]], ["get", 5]]},
